@@ -1,3 +1,5 @@
+//go:build mcbuild
+
 // C20: xtime.SleepContext and xtime.JitterTicker on the virtual clock. Engine E2.
 package main
 
